@@ -837,7 +837,13 @@ def run_case(case):
                 steps.append(step)
                 continue
             ntr, bwd, ob = r[1]
-            step["res"] = ("ok", {"trace": ob[0], "weight": ob[1], "bwd": ob[2], "retdiff": ob[3]})
+            try:        # the new trace must hold the arguments of the edit (C05: "a trace with the new arguments")
+                got_args = [gfi.from_jax(a_, t_) for a_, t_ in zip(ntr.get_args(), case["argt"])]
+                args_ok = json.dumps(got_args, default=str) == json.dumps(list(nargs), default=str)
+            except Exception:       # noqa: BLE001 - inexact or unreadable: not judged
+                got_args, args_ok = None, None
+            step["res"] = ("ok", {"trace": ob[0], "weight": ob[1], "bwd": ob[2], "retdiff": ob[3],
+                                  "args_ok": args_ok, "trace_args": got_args})
             steps.append(step)
             # C08: the same edit under the other honest tagging of the unchanged arguments gives the same result
             alt = [(c_ if a0 != a1 else (not c_)) for c_, a0, a1 in zip(changed, cur_args, nargs)]
